@@ -12,6 +12,16 @@ pub mod vars_secondary;
 pub mod vars_timestamp;
 use crate::version::zerv::bump::precedence::Precedence;
 
+/// Add a bump increment to a version number, reporting an overflow instead of panicking
+/// (debug builds) or wrapping around (release builds)
+pub(crate) fn checked_bump(current: u64, increment: u64, what: &str) -> Result<u64, ZervError> {
+    current.checked_add(increment).ok_or_else(|| {
+        ZervError::InvalidArgument(format!(
+            "Cannot bump {what}: {current} + {increment} exceeds the supported range"
+        ))
+    })
+}
+
 impl Zerv {
     pub fn apply_component_processing(&mut self, args: &ResolvedArgs) -> Result<(), ZervError> {
         let precedence_order: Vec<Precedence> =
